@@ -180,6 +180,66 @@ def check(run: Run) -> None:
         run.report("C11/dump-through-largest-member", {"definition": "union u { uint8 a; uint32 b; struct { uint8 x; uint32 y; } s; uint16 arr[3]; }; (align=True)",
                    "ops": [{"op": "parse + dump", "data": bytes(range(1, 9)).hex(), "observed": v.dumps().hex(), "expected": "0102030405060708: bytes 1..3 are data of b and arr"}]})
 
+    # a union nested in a union (directly, through a structure, or inside a structure member) whose innermost member is a structure
+    from functools import reduce as _reduce
+    NESTED = [("union U { union { struct { uint8 a; } s; uint8 q; } inner; uint16 x; };", "inner.s", "inner.q", "x"),
+              ("union U { struct { union { struct { uint8 a; } s; uint8 q; } inner; } w; uint16 x; };", "w.inner.s", "w.inner.q", "x"),
+              ("struct U { union { union { struct { uint8 a; } s; uint8 q; } inner; uint16 x; } v; uint8 t; };", "v.inner.s", "v.inner.q", "v.x")]
+    for text, spath, qpath, xpath in NESTED:
+        n_oracle += 1
+        get = lambda o, path: _reduce(getattr, path.split("."), o)      # noqa: E731
+        try:
+            cs = cstruct()
+            cs.load(text)
+            cs.U()
+            pv = cs.U(b"\x01\x02\x03")
+            seen = [get(pv, spath).a, get(pv, qpath), get(pv, xpath)]
+            setattr(get(pv, spath), "a", 9)
+            seen += [get(pv, spath).a, get(pv, qpath), get(pv, xpath), pv.dumps()[:2].hex()]
+            want = [1, 1, 0x0201, 9, 9, 0x0209, "0902"]
+            seen = [int(x) if not isinstance(x, str) else x for x in seen]
+        except Exception as e:  # noqa: BLE001
+            seen, want = f"{type(e).__name__}: {e}", "the members as views of the bytes 01 02, then of 09 02 after inner.s.a = 9"
+        if seen != want:
+            failures += 1
+            run.report("C11/nested-union", {"definition": text, "ops": [{"op": "default construction, parse of 010203, assignment to the innermost structure member", "observed": repr(seen)[:300], "expected": repr(want)}]})
+
+    # ---- recorded findings: references into a union that outlive a rebuild, and structures inside an array member ----
+    n_oracle += 2
+    cs_h = cstruct()
+    cs_h.load("struct s { uint32 a; uint32 b; }; union t { s s; uint64 x; }; struct e { uint16 a; uint16 b; }; union t2 { uint64 x; e arr[2]; };")
+    u = cs_h.t(bytes(8))
+    held = u.s
+    held.a = 1
+    held.b = 2
+    if (u.s.a, u.s.b, u.x) != (1, 2, 0x200000001):
+        failures += 1
+        run.report("C11/held-reference-after-rebuild" if (u.s.a, u.s.b, u.x) == (1, 0, 1) else "C11/assignment",
+                   {"definition": "struct s { uint32 a; uint32 b; }; union t { s s; uint64 x; };", "ops": [{"op": "h = u.s; h.a = 1; h.b = 2", "observed": repr((u.s.a, u.s.b, hex(u.x))), "expected": "(1, 2, 0x200000001)"}]})
+    u2 = cs_h.t2(bytes(8))
+    u2.arr[0].a = 0x1111
+    if (u2.x, u2.dumps()[:2]) != (0x1111, b"\x11\x11"):
+        failures += 1
+        run.report("C11/array-member-not-proxied" if (u2.x, u2.dumps()) == (0, bytes(8)) else "C11/assignment",
+                   {"definition": "struct e { uint16 a; uint16 b; }; union t2 { uint64 x; e arr[2]; };", "ops": [{"op": "u.arr[0].a = 0x1111", "observed": repr((hex(u2.x), u2.dumps().hex())), "expected": "x = 0x1111, dump 1111000000000000"}]})
+
+    # assigning a value that compares EQUAL to the current one still writes its bytes (-0.0 over +0.0; a list edited in place and assigned back)
+    n_oracle += 2
+    cs_e = cstruct()
+    cs_e.load("union tf { float f; uint32 i; }; union tw { uint16 words[2]; uint32 q; };")
+    uf = cs_e.tf(bytes(4))
+    uf.f = -0.0
+    if (uf.i, uf.dumps()) != (0x80000000, bytes.fromhex("00000080")):
+        failures += 1
+        run.report("C11/assign-equal-value", {"definition": "union tf { float f; uint32 i; };", "ops": [{"op": "u = tf(00000000); u.f = -0.0", "observed": repr((hex(uf.i), uf.dumps().hex())), "expected": "i = 0x80000000, dump 00000080"}]})
+    uw = cs_e.tw(bytes(4))
+    w = uw.words
+    w[1] = 0xBEEF
+    uw.words = w
+    if (uw.q, uw.dumps()) != (0xBEEF0000, bytes.fromhex("0000efbe")):
+        failures += 1
+        run.report("C11/assign-equal-value", {"definition": "union tw { uint16 words[2]; uint32 q; };", "ops": [{"op": "w = u.words; w[1] = 0xBEEF; u.words = w", "observed": repr((hex(uw.q), uw.dumps().hex())), "expected": "q = 0xbeef0000, dump 0000efbe"}]})
+
     res, errs = run_shards("C11h", ["Definition checks : list bool := [\n" + ";\n".join("  " + x for x in hist_checks[i:i + 80]) + "\n]." for i in range(0, len(hist_checks), 80)], "Model.Union")
     for e in errs:
         run.violation({"kind": "correspondence", "theorem_or_correspondence": "corr_union", "error": e[:800]}, tag="corr-shard-error", no_input=True)
